@@ -1,5 +1,8 @@
 (* C15: the trace checker extracted from Conc/Refcount.v (check_trace_N,
-   check_buf) run on the get/ref/unref/put events recorded from the Go code. *)
+   check_buf) run on the get/ref/unref/put events recorded from the Go code, and
+   commit_all of Conc/RowGroups.v (the file obtained by committing, in order, row
+   groups that hold all their rows) run on the programs of scenario
+   D-parent-pending. *)
 open Conv
 
 let event_of_tok = function
@@ -47,4 +50,23 @@ let () =
          | Some _ when String.length ans >= 2 && String.sub ans 0 2 = "ok" -> ans
          | None when String.length ans >= 6 && String.sub ans 0 6 = "reject" -> ans
          | _ -> "ERR check_buf disagrees with buf_step fold")
-    | _ -> failwith "c15.buf args")
+    | _ -> failwith "c15.buf args");
+  (* c15.commit <order> <writers>: order = writer indexes in commit order (hex, "_" = none);
+     writers = w;w;...  w = batch,batch,...  batch = lo-hi (hex, rows lo..hi-1 of the input).
+     enc offset rows = offset, count, rows: the answer is the file as a flat list
+     (what the harness renders from the row groups it reads back). *)
+  register "c15.commit" (function
+    | [ord; ws] ->
+        let range tok =
+          match String.split_on_char '-' tok with
+          | [a; b] ->
+              let lo = int_of_string ("0x" ^ a) and hi = int_of_string ("0x" ^ b) in
+              List.init (max 0 (hi - lo)) (fun i -> lo + i)
+          | _ -> failwith "batch lo-hi" in
+        let writer w = tmap range (toks w) in
+        let batches = tmap writer (String.split_on_char ';' ws) in
+        let order = tmap (fun t -> nat_of_int (int_of_string ("0x" ^ t))) (toks ord) in
+        let enc off rows = int_of_nat off :: List.length rows :: rows in
+        let file = Model.commit_all enc batches order [] in
+        if file = [] then "_" else String.concat "," (tmap (Printf.sprintf "%x") file)
+    | _ -> failwith "c15.commit args")
